@@ -20,7 +20,9 @@ RULE = ("case = (constructor se3|pos+quat, with/without stamps, poses, operation
         "over a fixed alphabet (18 symbols: left/right/propagating SE(3), Sim(3) left/right/propagating, scale, reduce, downsample, "
         "motion filter, crop, align, align_origin, project, copy, reads of each view, check) up to depth 2 (quick) / 3 (thorough) plus "
         "depth 4 over the cache-relevant sub-alphabet, on 3-pose trajectories with 90-degree rotations and dyadic coordinates; "
-        "random stream: histories of length <= 15 on 1..200 poses, epoch stamps, UTM-sized offsets, scales 1e-3..1e3; "
+        "long exact-grid stream: histories of length <= 12 on up to 200 poses (incl. propagation); random stream: histories of length <= 15 "
+        "on 1..200 poses, epoch stamps, UTM-sized offsets, scales 1e-3..1e3 (propagating transforms only on <= 40 poses there: exact "
+        "rationals of a propagated chain grow with the pose index); "
         "every read, num_poses, check() (on a deep copy) and raised errors compared with the cache machine after every step; "
         "non-trivial = the history contains a mutating operation (all views are observed on a deep copy after every step); "
         "distinct by content hash")
@@ -188,10 +190,19 @@ def rand_ops(r, n, timed, length):
             if mode == "P":
                 # exact rationals of a propagated chain grow with the pose index; repeated propagation multiplies
                 # that growth, so the number of propagations per history is bounded by the trajectory length
+                # (long propagations are covered by the exact-grid stream `long-grid`, where the numbers stay small)
                 props += 1
-                if props > (3 if n <= 5 else 2 if n <= 12 else 1):
+                if props > (3 if n <= 5 else 2 if n <= 12 else 1) or n > 40:
                     mode = "R"
-            ops.append({"op": "tf", "mode": mode, "T": rand_transform(r, r.choice(["se3", "se3", "sim3"]))})
+            T = rand_transform(r, r.choice(["se3", "se3", "sim3"]))
+            if mode == "P":
+                # a Sim(3) propagation multiplies the scale once per pose: keep s^n inside the float range
+                a = np.array(T).reshape(4, 4)
+                sc = abs(float(np.linalg.det(a[:3, :3]))) ** (1.0 / 3.0)
+                if abs(sc - 1.0) > 1e-9:
+                    a[:3, :3] *= r.choice([0.5, 2.0, 1.25]) / sc
+                    T = a.flatten().tolist()
+            ops.append({"op": "tf", "mode": mode, "T": T})
         elif k < 0.52:
             ops.append({"op": "sc", "s": r.choice([2.0, 0.5, 10 ** r.uniform(-3, 3)])})
         elif k < 0.58:
@@ -253,6 +264,21 @@ def gen_cases(ctx):
             if not timed:
                 hist = [o for o in hist if o["op"] != "crop"]
             yield dict(grid_base(r, timed, r.choice(["se3", "pq"])), ops=hist, sampled=d)
+    # long exact-grid trajectories: propagation, reduction, cropping … on up to 200 poses with small exact numbers
+    for _ in range(150 if ctx.thorough else 25):
+        n = r.choice([10, 50, 120, 200]) if ctx.thorough else r.choice([10, 40, 80])
+        timed = r.random() < 0.6
+        hist = [r.choice(full) for _ in range(r.randint(1, 12 if ctx.thorough else 8))]
+        if not timed:
+            hist = [o for o in hist if o["op"] != "crop"]
+        # at most two Sim(3) propagations (each doubles the scale along the path)
+        seen = 0
+        for i, o in enumerate(hist):
+            if o["op"] == "tf" and o["mode"] == "P" and o["T"] == full[5]["T"]:
+                seen += 1
+                if seen > 1 or n > 60:
+                    hist[i] = full[2]
+        yield dict(grid_base(r, timed, r.choice(["se3", "pq"]), n=n), ops=hist, stream="long-grid")
     n_rand = 700 if ctx.thorough else 120
     maxn = 200 if ctx.thorough else 60
     for _ in range(n_rand):
@@ -889,7 +915,7 @@ def judge(ctx, case, impl, out_line):
     if stale_probe:
         ctx.count("branch", "stale-cache-probe(cache filled, mutation, other view read)")
     mutating = any(o["op"] in ("tf", "sc", "red", "ds", "mf", "crop", "al", "ao", "pj") for o in case["ops"])
-    ctx.record({k: case[k] for k in case if k not in ("corpus", "exhaustive", "sampled")}, mutating)
+    ctx.record({k: case[k] for k in case if k not in ("corpus", "exhaustive", "sampled", "stream")}, mutating)
 
 
 def evaluate(ctx, cases):
